@@ -2,6 +2,7 @@
 """Record the local-variable names of every function of the reference tree (scverif/refs/locals.json).
 Only used so that a later rename of a local does not make a text rule report a statement as missing."""
 import json, os, sys
+os.environ['SCVERIF_NO_CANON'] = '1'
 sys.path.insert(0, os.path.dirname(os.path.dirname(os.path.abspath(__file__))))
 from scverif.loader import Repo, local_names, qualname_of
 r = Repo()
